@@ -210,6 +210,18 @@ def oraclesOfJson (j : Json) : Except String Oracles := do
     | none => pure []
     | some x => (← x.getArr?).toList.mapM fun g => do
       (← g.getArr?).toList.mapM fun n => n.getStr?
+  -- a third family (optional key "hookHeadMin"): for every listed field holding a sequence of ints, the hook raises
+  -- unless the first element is the smallest (an invariant on the ORDER of the elements)
+  let heads : List String ← match optField j "hookHeadMin" with
+    | none => pure []
+    | some x => (← x.getArr?).toList.mapM fun n => n.getStr?
+  let intsOf : List PyVal → Option (List Int) := fun xs =>
+    xs.foldr (fun v acc => match v, acc with | .int i, some r => some (i :: r) | _, _ => none) (some [])
+  let headMin : PyVal → Bool := fun v =>
+    let xs := match v with | .list xs => xs | .deque xs => xs | _ => []
+    match intsOf xs with
+    | some (h :: t) => t.all (fun e => decide (h ≤ e))
+    | _ => true
   pure { reMatch := fun p s => match over.find? (fun t => t.1 == p && t.2.1 == s) with
             | some t => t.2.2
             | none => fmtMatch (fun p s => match table.find? (fun t => t.1 == p && t.2.1 == s) with
@@ -217,7 +229,9 @@ def oraclesOfJson (j : Json) : Except String Oracles := do
          hookOk := fun st => (hooks.all fun h => match lookup h.1 st with
                                 | some x => !PyVal.pyEq x h.2 | none => true)
                              && (needs.all fun g => g.any fun n => match lookup n st with
-                                | some x => !x.isNone | none => false) }
+                                | some x => !x.isNone | none => false)
+                             && (heads.all fun f => match lookup f st with
+                                | some v => headMin v | none => true) }
 
 def kwOfJson (j : Json) : Except String (List (String × PyVal)) := do
   (← j.getArr?).toList.mapM fun kv => do
